@@ -171,6 +171,42 @@ def entry(text, name, key):
     return v
 
 
+def entries_all(text, name, key):
+    """value tokens of EVERY data line with first token `key` in every block called `name`, in file order"""
+    return [tk[1] for tk in block_entries(text, name) if len(tk) >= 2 and tk[0] == str(key)]
+
+
+def _is_int(t):
+    try:
+        int(t)
+        return True
+    except ValueError:
+        return False
+
+
+def key_counts(text):
+    """{(BLOCK, key tuple): number of data lines}; the key of a data line is its run of leading integer
+    tokens (without the last token if the whole line is integers: that one is the value); lines that do
+    not start with an integer (decay tables, text) have no key and are not counted"""
+    cnt = {}
+    for nm, hdr, body in split_blocks(text):
+        if nm is None or nm.startswith("DECAY:"):
+            continue
+        for ln in body:
+            tk = data_tokens(ln)
+            k = []
+            for t in tk:
+                if _is_int(t):
+                    k.append(t)
+                else:
+                    break
+            if len(k) == len(tk) and len(k) > 1:
+                k = k[:-1]
+            if k:
+                cnt[(nm, tuple(k))] = cnt.get((nm, tuple(k)), 0) + 1
+    return cnt
+
+
 def strip_config(text):
     """remove every GM2CalcConfig block (header and body up to the next block header)"""
     out, skip = [], False
